@@ -19,6 +19,16 @@ from mdsa.cfg import CFG, walk_local
 Edge = Tuple[int, str]
 
 
+class Not:
+    """spec value for decision_mismatches: any answer but these"""
+
+    def __init__(self, *texts):
+        self.texts = texts
+
+    def __repr__(self):
+        return "anything but " + " / ".join(self.texts)
+
+
 class F:
     def __init__(self, ctx, fi):
         self.ctx = ctx
@@ -577,7 +587,7 @@ class F:
                 # the conditions on this path are spelled in a way the table does not know: no verdict for this path
                 self.undecided_paths += 1
                 continue
-            if got != want if isinstance(want, str) else got not in want:
+            if (got in want.texts) if isinstance(want, Not) else got != want if isinstance(want, str) else got not in want:
                 bad.append((lits, got, want))
         return bad
 
